@@ -197,7 +197,12 @@ impl Format {
                     // Then we match the timescale directly.
                     if idx != s.len() - 1 {
                         // We have some remaining characters, so let's parse those in the only formats we know.
-                        ts = TimeScale::from_str(s[idx..].trim()).with_context(|_| ParseSnafu {
+                        // `idx` counts characters: it is not a valid byte offset after a multi-byte character.
+                        let rest = s.get(idx..).ok_or(HifitimeError::Parse {
+                            source: ParsingError::UnknownFormat,
+                            details: "non-ASCII input when parsing from format string",
+                        })?;
+                        ts = TimeScale::from_str(rest.trim()).with_context(|_| ParseSnafu {
                             details: "when parsing from format string",
                         })?;
                     }
@@ -227,7 +232,7 @@ impl Format {
                     }
 
                     // Advance the token, unless we're at the end of the tokens.
-                    if cur_item_idx == self.num_items {
+                    if cur_item_idx + 1 >= self.num_items {
                         break;
                     }
                     cur_item_idx += 1;
@@ -244,15 +249,21 @@ impl Format {
                     idx + 1
                 };
 
-                let sub_str = &s[prev_idx..end_idx];
+                let sub_str = s.get(prev_idx..end_idx).ok_or(HifitimeError::Parse {
+                    source: ParsingError::UnknownFormat,
+                    details: "empty or non-ASCII field when parsing from format string",
+                })?;
 
                 match prev_token {
                     Token::YearShort => {
-                        decomposed[0] =
-                            sub_str.parse::<i32>().map_err(|_| HifitimeError::Parse {
+                        decomposed[0] = sub_str
+                            .parse::<i32>()
+                            .ok()
+                            .and_then(|year| year.checked_add(2000))
+                            .ok_or(HifitimeError::Parse {
                                 source: ParsingError::ValueError,
                                 details: "could not parse year as i32",
-                            })? + 2000;
+                            })?;
                     }
                     Token::DayOfYear => {
                         // We must parse this as a floating point value.
@@ -279,7 +290,10 @@ impl Format {
                         }
                     }
                     Token::WeekdayDecimal => {
-                        todo!()
+                        return Err(HifitimeError::Parse {
+                            source: ParsingError::UnknownToken { token: 'w' },
+                            details: "parsing the decimal weekday is not supported",
+                        });
                     }
                     Token::MonthName | Token::MonthNameShort => {
                         match MonthName::from_str(sub_str) {
@@ -303,6 +317,12 @@ impl Format {
                                     Some(pos) => {
                                         // If these are the subseconds, we must convert them to nanoseconds
                                         if prev_token == Token::Subsecond {
+                                            if end_idx - prev_idx > 9 {
+                                                return Err(HifitimeError::Parse {
+                                                    source: ParsingError::ValueError,
+                                                    details: "more than nine subsecond digits",
+                                                });
+                                            }
                                             if end_idx - prev_idx != 9 {
                                                 decomposed[pos] = val
                                                     * 10_i32.pow((9 - (end_idx - prev_idx)) as u32);
@@ -337,7 +357,11 @@ impl Format {
                 prev_idx = idx + 1;
                 // If we are about to parse an hours offset, we need to set the sign now.
                 if cur_token == Token::OffsetHours {
-                    if &s[idx..idx + 1] == "-" {
+                    let sign = s.get(idx..idx + 1).ok_or(HifitimeError::Parse {
+                        source: ParsingError::UnknownFormat,
+                        details: "non-ASCII input when parsing from format string",
+                    })?;
+                    if sign == "-" {
                         offset_sign = -1;
                     }
                     prev_idx += 1;
@@ -359,7 +383,10 @@ impl Format {
                     + (decomposed[4] as i64) * Unit::Minute
                     + (decomposed[5] as i64) * Unit::Second
                     + (decomposed[6] as i64) * Unit::Nanosecond;
-                Epoch::from_day_of_year(decomposed[0], days, ts) + elapsed
+                // Same as `Epoch::from_day_of_year`, but an unrepresentable year is an error, not a panic.
+                Epoch::maybe_from_gregorian(decomposed[0], 1, 1, 0, 0, 0, 0, ts)?
+                    + (days - 1.0) * Unit::Day
+                    + elapsed
             }
             None => Epoch::maybe_from_gregorian(
                 decomposed[0],
